@@ -712,4 +712,104 @@ theorem MTs.nextDocMin_sound (subSem : Sub → Nat → Bool) (lineSem : MTs → 
       simp only [MTs.semAny, MT.nextDoc_sound subSem lineSem L h hc.1 d hL (by omega), h2, Bool.or_self]
 end
 
+
+/-! ## pruneMatchTree preserves the meaning; `nil` means unsatisfiable -/
+
+/-- `prune` specification for one tree -/
+def PruneOK (subSem : Sub → Nat → Bool) (lineSem : MTs → Nat → Bool) (t : MT) : Option MT → Prop
+  | Option.none => ∀ d, t.sem subSem lineSem d = false
+  | some t' => ∀ d, t'.sem subSem lineSem d = t.sem subSem lineSem d
+
+def PruneAndOK (subSem : Sub → Nat → Bool) (lineSem : MTs → Nat → Bool) (ch : MTs) : Option MTs → Prop
+  | Option.none => ∀ d, MTs.semAll subSem lineSem d ch = false
+  | some ch' => ∀ d, MTs.semAll subSem lineSem d ch' = MTs.semAll subSem lineSem d ch
+
+theorem pruneOK_map (subSem : Sub → Nat → Bool) (lineSem : MTs → Nat → Bool) (c : MT) (f : MT → MT) (t : MT)
+    (o : Option MT) (h : PruneOK subSem lineSem c o)
+    (h1 : ∀ d, t.sem subSem lineSem d = c.sem subSem lineSem d)
+    (h2 : ∀ c' d, (f c').sem subSem lineSem d = c'.sem subSem lineSem d) :
+    PruneOK subSem lineSem t (o.map f) := by
+  cases o with
+  | none => intro d; rw [h1]; exact h d
+  | some c' => intro d; simp only [h2, h1]; exact h d
+
+mutual
+theorem MT.prune_spec (subSem : Sub → Nat → Bool) (lineSem : MTs → Nat → Bool)
+    (hX : ∀ s : Sub, s.it = Option.none → ∀ d, subSem s d = false)
+    (hline : ∀ ch ch', MTs.pruneAnd ch = some ch' → ∀ d, lineSem ch' d = lineSem ch d) :
+    (t : MT) → PruneOK subSem lineSem t t.prune
+  | .doc _ _ _ _ => by simp only [MT.prune]; intro d; rfl
+  | .brute _ _ => by simp only [MT.prune]; intro d; rfl
+  | .none => by simp only [MT.prune]; intro d; rfl
+  | .re _ _ _ _ _ _ _ => by simp only [MT.prune]; intro d; rfl
+  | .sub s => by
+    simp only [MT.prune]
+    by_cases h : s.it.isNone = true
+    · simp only [h, if_true]
+      intro d
+      exact hX s (by simpa using h) d
+    · simp only [h]; intro d; rfl
+  | .and k ch => by
+    simp only [MT.prune]
+    have r := MTs.pruneAnd_spec subSem lineSem hX hline ch
+    cases hp : MTs.pruneAnd ch with
+    | none => rw [hp] at r; intro d; simp only [MT.sem]; exact r d
+    | some ch' => rw [hp] at r; intro d; simp only [Option.map, MT.sem]; exact r d
+  | .andLine k kin ch => by
+    simp only [MT.prune]
+    have r := MTs.pruneAnd_spec subSem lineSem hX hline ch
+    cases hp : MTs.pruneAnd ch with
+    | none => rw [hp] at r; intro d; simp only [MT.sem, r d, Bool.false_and]
+    | some ch' => rw [hp] at r; intro d; simp only [Option.map, MT.sem, r d, hline ch ch' hp d]
+  | .or k ch => by
+    simp only [MT.prune]
+    have r := MTs.pruneOr_spec subSem lineSem hX hline ch
+    generalize MTs.pruneOr ch = p at r
+    match p with
+    | .nil => intro d; simp only [MT.sem]; rw [← r d]; rfl
+    | .cons h .nil => intro d; simp only [MT.sem]; rw [← r d]; simp [MTs.semAny]
+    | .cons h (.cons h2 t2) => intro d; simp only [MT.sem]; exact r d
+  | .noVisit c =>
+    by simp only [MT.prune]; exact pruneOK_map subSem lineSem c MT.noVisit _ _ (MT.prune_spec subSem lineSem hX hline c) (fun _ => rfl) (fun _ _ => rfl)
+  | .fileName k c =>
+    by simp only [MT.prune]; exact pruneOK_map subSem lineSem c (MT.fileName k) _ _ (MT.prune_spec subSem lineSem hX hline c) (fun _ => rfl) (fun _ _ => rfl)
+  | .boost k c =>
+    by simp only [MT.prune]; exact pruneOK_map subSem lineSem c (MT.boost k) _ _ (MT.prune_spec subSem lineSem hX hline c) (fun _ => rfl) (fun _ _ => rfl)
+  | .not k c => by
+    simp only [MT.prune]
+    have r := MT.prune_spec subSem lineSem hX hline c
+    cases hp : c.prune with
+    | none => rw [hp] at r; intro d; simp only [MT.sem, r d]; rfl
+    | some c' => rw [hp] at r; intro d; simp only [MT.sem, r d]
+theorem MTs.pruneAnd_spec (subSem : Sub → Nat → Bool) (lineSem : MTs → Nat → Bool)
+    (hX : ∀ s : Sub, s.it = Option.none → ∀ d, subSem s d = false)
+    (hline : ∀ ch ch', MTs.pruneAnd ch = some ch' → ∀ d, lineSem ch' d = lineSem ch d) :
+    (ch : MTs) → PruneAndOK subSem lineSem ch (MTs.pruneAnd ch)
+  | .nil => by simp only [MTs.pruneAnd]; intro d; rfl
+  | .cons h t => by
+    simp only [MTs.pruneAnd]
+    have rh := MT.prune_spec subSem lineSem hX hline h
+    have rt := MTs.pruneAnd_spec subSem lineSem hX hline t
+    cases hp : h.prune with
+    | none => rw [hp] at rh; intro d; simp only [MTs.semAll, rh d, Bool.false_and]
+    | some h' =>
+      rw [hp] at rh
+      cases hq : MTs.pruneAnd t with
+      | none => rw [hq] at rt; intro d; simp only [MTs.semAll, rt d, Bool.and_false]
+      | some t' => rw [hq] at rt; intro d; simp only [Option.map, MTs.semAll, rh d, rt d]
+theorem MTs.pruneOr_spec (subSem : Sub → Nat → Bool) (lineSem : MTs → Nat → Bool)
+    (hX : ∀ s : Sub, s.it = Option.none → ∀ d, subSem s d = false)
+    (hline : ∀ ch ch', MTs.pruneAnd ch = some ch' → ∀ d, lineSem ch' d = lineSem ch d) :
+    (ch : MTs) → ∀ d, MTs.semAny subSem lineSem d (MTs.pruneOr ch) = MTs.semAny subSem lineSem d ch
+  | .nil => by intro d; rfl
+  | .cons h t => by
+    intro d
+    simp only [MTs.pruneOr]
+    have rh := MT.prune_spec subSem lineSem hX hline h
+    have rt := MTs.pruneOr_spec subSem lineSem hX hline t d
+    cases hp : h.prune with
+    | none => rw [hp] at rh; simp only [MTs.semAny, rh d, rt, Bool.false_or]
+    | some h' => rw [hp] at rh; simp only [MTs.semAny, rh d, rt]
+end
+
 end ZoektModel.C01
